@@ -103,7 +103,14 @@ def parse(text, store):
         elif call in ("rename", "renameat", "renameat2"):
             # what name is given to a new file: the log's (the rewrite of plan / compact / the tail repair) or the lock's
             dest = args.rsplit(",", 2)[-2] if call == "renameat2" and args.count(",") >= 4 else args.rsplit(",", 1)[-1]
-            s["obj"] = "tmp->lock" if "/lock" in dest and "jsonl" not in dest else "tmp->log"
+            quoted = re.findall(r'"((?:[^"\\]|\\.)*)"', args)
+            src = quoted[0] if quoted else ""
+            if "/lock" in dest and "jsonl" not in dest:
+                s["obj"] = "tmp->lock"
+            elif re.search(r"(plans|events)\.jsonl$", src) and not re.search(r"(plans|events)\.jsonl$", dest.strip().strip('"')):
+                s["obj"] = "log->away"          # the log's name given up (moved aside): between this call and the next rename there is no log
+            else:
+                s["obj"] = "tmp->log"
         steps.append(s)
     return steps
 
